@@ -21,6 +21,7 @@ INNER = [
     'SELECT a FROM #t WHERE a > 100',
     'SELECT a, b FROM #u',
     'SELECT b AS a, a AS b FROM #t',
+    'SELECT a AS meta, b AS entry, c AS id FROM #t',          # output names that are special on ledger tables are ordinary here
 ]
 OUTER = ['*', '{0}', '{0}, {1}', '{1}, {0}', 'count(*)', '{0}, count(*)', '{0} ORDERBY', '{0} WHERE', '{0} ORDERBY1', '{0} ORDERBY1 LIMIT']
 
@@ -158,6 +159,34 @@ def special(res):
             res.violation('h08:in-multi-column-exc:' + q, 'IN subquery with several columns is rejected with CompilationError', {'query': q}, f'{type(e).__name__}: {e}', 'CompilationError')
 
 
+def ledger_subqueries(res):
+    """a subquery is evaluated over the table its own FROM clause names: the enclosing statement's OPEN / CLOSE / CLEAR do not reach
+    into it - x IN (subquery) equals membership in the rows the subquery returns when run on its own"""
+    from harness import ledger
+    conn = ledger.connect(ledger.LEDGER_A)
+    subs = ["SELECT account FROM year = 2020 WHERE number > 100", "SELECT account FROM month = 2", "SELECT DISTINCT account FROM flag = '*' WHERE number < 0", "SELECT account FROM #postings WHERE number > 500"]
+    outers = ['CLOSE ON 2020-01-04', 'OPEN ON 2020-02-01', 'OPEN ON 2020-01-15 CLOSE ON 2020-02-10 CLEAR', 'year = 2020 CLOSE ON 2020-01-20']
+    for sub in subs:
+        alone = {r[0] for r in conn.execute(sub).fetchall()}
+        for outer in outers:
+            for neg in ('', 'NOT '):
+                q = f'SELECT date, account, number FROM {outer} WHERE account {neg}IN ({sub})'
+                res.case(('ledger-sub', q), {'query': q})
+                try:
+                    got = [tuple(r) for r in conn.execute(q).fetchall()]
+                    base = [tuple(r) for r in conn.execute(f'SELECT date, account, number FROM {outer}').fetchall()]
+                except Exception as e:  # noqa
+                    res.violation('h08:ledger-subquery:' + q[:90], 'IN (subquery) under FROM qualifiers executes', {'query': q}, f'{type(e).__name__}: {e}', 'rows')
+                    continue
+                if not alone:
+                    want = []        # IN over an empty subquery is NULL: the row is excluded, also under NOT
+                else:
+                    want = [r for r in base if (r[1] in alone) != bool(neg)]
+                if got != want:
+                    res.violation('h08:ledger-subquery:' + q[:90], 'x IN (subquery) equals membership in the rows of the subquery run on its own, whatever qualifiers the enclosing FROM has',
+                                  {'query': q}, (len(got), got[:2]), (len(want), want[:2]))
+
+
 def run(tier, seed):
     res = Result('inner queries (plain, filtered, aliased, aggregated, hidden ORDER keys, DISTINCT, LIMIT, empty, over another table) x outer forms '
                  '(*, projections, reordering, aggregation, ORDER BY, WHERE) x nesting depth 1-3; IN / NOT IN subqueries in targets and WHERE over '
@@ -175,6 +204,7 @@ def run(tier, seed):
             clause, cse, obs, exp = bad
             res.violation('h08:in:' + cse['query'][:110], clause, cse, obs, exp)
     special(res)
+    ledger_subqueries(res)
     check_repeated_names(res)
     return res.asdict()
 
